@@ -27,140 +27,6 @@ pub fn payload(id: u64) -> P {
 pub fn check_payload(p: &P) -> Option<u64> {
     if *p == payload(p[0]) { Some(p[0]) } else { None }
 }
-/// slice payloads: the length (1..=6 elements) is a function of the id, every element is checked
-pub fn slice_len(id: u64) -> usize {
-    1 + (id % 6) as usize
-}
-pub fn slice_elem(id: u64, i: usize) -> u64 {
-    if i == 0 { id } else { id.wrapping_mul(0x9E37_79B9).wrapping_add(i as u64 * 0x0101_0101) }
-}
-pub fn check_slice(p: &[u64]) -> Option<u64> {
-    let id = *p.first()?;
-    if p.len() == slice_len(id) && p.iter().enumerate().all(|(i, v)| *v == slice_elem(id, i)) { Some(id) } else { None }
-}
-
-type Factory<S, T> = iceoryx2::service::port_factory::publish_subscribe::PortFactory<S, T, ()>;
-
-/// The payload flavour of a history: fixed-size `[u64; 4]` or slices `[u64]` of 1..=6 elements
-/// (statically sized data segment: initial_max_slice_len 6, so the chunk accounting is the same).
-pub trait Kind: 'static {
-    type T: ?Sized + core::fmt::Debug + IceoryxSend + 'static;
-    const NAME: &'static str;
-    fn service<S: Service>(node: &Node<S>, name: &ServiceName, cfg: &Cfg) -> Result<Factory<S, Self::T>, String>;
-    fn publisher<S: Service>(svc: &Factory<S, Self::T>, loans: Option<usize>, fail_on_full: bool) -> Result<Publisher<S, Self::T, ()>, iceoryx2::port::publisher::PublisherCreateError>;
-    fn subscriber<S: Service>(svc: &Factory<S, Self::T>, buf_hreq: Option<(usize, usize)>) -> Result<Subscriber<S, Self::T, ()>, iceoryx2::port::subscriber::SubscriberCreateError>;
-    fn send_copy<S: Service>(p: &Publisher<S, Self::T, ()>, id: u64) -> Result<usize, SendError>;
-    fn loan<S: Service>(p: &Publisher<S, Self::T, ()>, id: u64) -> Result<SampleMut<S, Self::T, ()>, LoanError>;
-    fn receive<S: Service>(s: &Subscriber<S, Self::T, ()>) -> Result<Option<Sample<S, Self::T, ()>>, ReceiveError>;
-    fn has_samples<S: Service>(s: &Subscriber<S, Self::T, ()>) -> Result<bool, iceoryx2::port::update_connections::ConnectionFailure>;
-    fn update<S: Service>(p: &Publisher<S, Self::T, ()>) -> Result<(), iceoryx2::port::update_connections::ConnectionFailure>;
-    fn sp<S: Service>(s: &Sample<S, Self::T, ()>) -> &Self::T;
-    fn lp<S: Service>(l: &SampleMut<S, Self::T, ()>) -> &Self::T;
-    fn check(p: &Self::T) -> Option<u64>;
-}
-
-macro_rules! svc_settings {
-    ($b:expr, $cfg:expr) => {
-        $b.subscriber_max_buffer_size($cfg.buf_max).history_size($cfg.hist).subscriber_max_borrowed_samples($cfg.borrow).enable_safe_overflow($cfg.overflow).max_publishers($cfg.max_pubs).max_subscribers($cfg.max_subs)
-    };
-}
-
-pub struct Fixed;
-impl Kind for Fixed {
-    type T = P;
-    const NAME: &'static str = "fixed";
-    fn service<S: Service>(node: &Node<S>, name: &ServiceName, cfg: &Cfg) -> Result<Factory<S, P>, String> {
-        svc_settings!(node.service_builder(name).publish_subscribe::<P>(), cfg).create().map_err(|e| format!("{:?}", e))
-    }
-    fn publisher<S: Service>(svc: &Factory<S, P>, loans: Option<usize>, fail_on_full: bool) -> Result<Publisher<S, P, ()>, iceoryx2::port::publisher::PublisherCreateError> {
-        let pb = svc.publisher_builder();
-        let pb = match loans {
-            Some(l) => pb.backpressure_strategy(BackpressureStrategy::DiscardData).max_loaned_samples(l),
-            None => pb,
-        };
-        let pb = if fail_on_full { pb.set_backpressure_handler(|_| iceoryx2::port::BackpressureAction::DiscardDataAndFail) } else { pb };
-        pb.create()
-    }
-    fn subscriber<S: Service>(svc: &Factory<S, P>, bh: Option<(usize, usize)>) -> Result<Subscriber<S, P, ()>, iceoryx2::port::subscriber::SubscriberCreateError> {
-        match bh {
-            Some((buf, hreq)) => svc.subscriber_builder().buffer_size(buf).history_request(hreq).create(),
-            None => svc.subscriber_builder().create(),
-        }
-    }
-    fn send_copy<S: Service>(p: &Publisher<S, P, ()>, id: u64) -> Result<usize, SendError> {
-        p.send_copy(payload(id))
-    }
-    fn loan<S: Service>(p: &Publisher<S, P, ()>, id: u64) -> Result<SampleMut<S, P, ()>, LoanError> {
-        p.loan_uninit().map(|l| l.write_payload(payload(id)))
-    }
-    fn receive<S: Service>(s: &Subscriber<S, P, ()>) -> Result<Option<Sample<S, P, ()>>, ReceiveError> {
-        s.receive()
-    }
-    fn has_samples<S: Service>(s: &Subscriber<S, P, ()>) -> Result<bool, iceoryx2::port::update_connections::ConnectionFailure> {
-        s.has_samples()
-    }
-    fn update<S: Service>(p: &Publisher<S, P, ()>) -> Result<(), iceoryx2::port::update_connections::ConnectionFailure> {
-        p.update_connections()
-    }
-    fn sp<S: Service>(s: &Sample<S, P, ()>) -> &P {
-        s.payload()
-    }
-    fn lp<S: Service>(l: &SampleMut<S, P, ()>) -> &P {
-        l.payload()
-    }
-    fn check(p: &P) -> Option<u64> {
-        check_payload(p)
-    }
-}
-
-pub struct Slices;
-impl Kind for Slices {
-    type T = [u64];
-    const NAME: &'static str = "slice";
-    fn service<S: Service>(node: &Node<S>, name: &ServiceName, cfg: &Cfg) -> Result<Factory<S, [u64]>, String> {
-        svc_settings!(node.service_builder(name).publish_subscribe::<[u64]>(), cfg).create().map_err(|e| format!("{:?}", e))
-    }
-    fn publisher<S: Service>(svc: &Factory<S, [u64]>, loans: Option<usize>, fail_on_full: bool) -> Result<Publisher<S, [u64], ()>, iceoryx2::port::publisher::PublisherCreateError> {
-        let pb = svc.publisher_builder().initial_max_slice_len(6).allocation_strategy(AllocationStrategy::Static);
-        let pb = match loans {
-            Some(l) => pb.backpressure_strategy(BackpressureStrategy::DiscardData).max_loaned_samples(l),
-            None => pb,
-        };
-        let pb = if fail_on_full { pb.set_backpressure_handler(|_| iceoryx2::port::BackpressureAction::DiscardDataAndFail) } else { pb };
-        pb.create()
-    }
-    fn subscriber<S: Service>(svc: &Factory<S, [u64]>, bh: Option<(usize, usize)>) -> Result<Subscriber<S, [u64], ()>, iceoryx2::port::subscriber::SubscriberCreateError> {
-        match bh {
-            Some((buf, hreq)) => svc.subscriber_builder().buffer_size(buf).history_request(hreq).create(),
-            None => svc.subscriber_builder().create(),
-        }
-    }
-    fn send_copy<S: Service>(p: &Publisher<S, [u64], ()>, id: u64) -> Result<usize, SendError> {
-        let v: Vec<u64> = (0..slice_len(id)).map(|i| slice_elem(id, i)).collect();
-        p.send_slice_copy(&v)
-    }
-    fn loan<S: Service>(p: &Publisher<S, [u64], ()>, id: u64) -> Result<SampleMut<S, [u64], ()>, LoanError> {
-        p.loan_slice_uninit(slice_len(id)).map(|l| l.write_from_fn(|i| slice_elem(id, i)))
-    }
-    fn receive<S: Service>(s: &Subscriber<S, [u64], ()>) -> Result<Option<Sample<S, [u64], ()>>, ReceiveError> {
-        s.receive()
-    }
-    fn has_samples<S: Service>(s: &Subscriber<S, [u64], ()>) -> Result<bool, iceoryx2::port::update_connections::ConnectionFailure> {
-        s.has_samples()
-    }
-    fn update<S: Service>(p: &Publisher<S, [u64], ()>) -> Result<(), iceoryx2::port::update_connections::ConnectionFailure> {
-        p.update_connections()
-    }
-    fn sp<S: Service>(s: &Sample<S, [u64], ()>) -> &[u64] {
-        s.payload()
-    }
-    fn lp<S: Service>(l: &SampleMut<S, [u64], ()>) -> &[u64] {
-        l.payload()
-    }
-    fn check(p: &[u64]) -> Option<u64> {
-        check_slice(p)
-    }
-}
 
 #[derive(Debug, Clone, Copy)]
 pub struct Cfg {
@@ -225,13 +91,13 @@ struct SubM {
     borrows: BTreeMap<u64, usize>,
 }
 
-struct Held<S: Service, K: Kind> {
+struct Held<S: Service> {
     sub_slot: usize,
     sub_uid: u64,
     pub_uid: u64,
     id: u64,
     orphan: bool,
-    sample: Sample<S, K::T, ()>,
+    sample: Sample<S, P, ()>,
 }
 
 pub struct Outcome {
@@ -243,16 +109,16 @@ pub struct Outcome {
     pub shape: u64,
 }
 
-struct World<S: Service, K: Kind> {
+struct World<S: Service> {
     cfg: Cfg,
-    pubs: Vec<Option<(Publisher<S, K::T, ()>, PubM, Vec<(u64, SampleMut<S, K::T, ()>)>)>>,
-    subs: Vec<Option<(Subscriber<S, K::T, ()>, SubM)>>,
-    held: Vec<Held<S, K>>,
+    pubs: Vec<Option<(Publisher<S, P, ()>, PubM, Vec<(u64, SampleMut<S, P, ()>)>)>>,
+    subs: Vec<Option<(Subscriber<S, P, ()>, SubM)>>,
+    held: Vec<Held<S>>,
     next_uid: u64,
     trace: Vec<String>,
 }
 
-impl<S: Service, K: Kind> World<S, K> {
+impl<S: Service> World<S> {
     fn pub_update(&mut self, pi: usize) {
         let live: Vec<(u64, usize, usize)> = self.subs.iter().flatten().map(|(_, m)| (m.uid, m.buf, m.hist_req)).collect();
         let (_, pm, _) = self.pubs[pi].as_mut().unwrap();
@@ -322,11 +188,6 @@ impl<S: Service, K: Kind> World<S, K> {
 }
 
 pub fn run_history<S: Service>(config: &iceoryx2::config::Config, rng: &mut Rng, cfg: Cfg, opts: Opts, tag: &str) -> Outcome {
-    // every third history uses slice payloads
-    if rng.chance(1, 3) { run_history_kind::<S, Slices>(config, rng, cfg, opts, tag) } else { run_history_kind::<S, Fixed>(config, rng, cfg, opts, tag) }
-}
-
-pub fn run_history_kind<S: Service, K: Kind>(config: &iceoryx2::config::Config, rng: &mut Rng, cfg: Cfg, opts: Opts, tag: &str) -> Outcome {
     let mut events: BTreeMap<&'static str, u64> = BTreeMap::new();
     let mut out = Outcome { steps: 0, events: BTreeMap::new(), mismatch: None, trace_sample: Vec::new(), shape: 0 };
     macro_rules! ev {
@@ -342,15 +203,24 @@ pub fn run_history_kind<S: Service, K: Kind>(config: &iceoryx2::config::Config, 
         }
     };
     let name = format!("ps_{}_{}", tag, rng.next());
-    *events.entry(if K::NAME == "slice" { "histories_with_slice_payload" } else { "histories_with_fixed_payload" }).or_default() += 1;
-    let svc = match K::service(&node, &name.as_str().try_into().unwrap(), &cfg) {
+    let svc = match node
+        .service_builder(&name.as_str().try_into().unwrap())
+        .publish_subscribe::<P>()
+        .subscriber_max_buffer_size(cfg.buf_max)
+        .history_size(cfg.hist)
+        .subscriber_max_borrowed_samples(cfg.borrow)
+        .enable_safe_overflow(cfg.overflow)
+        .max_publishers(cfg.max_pubs)
+        .max_subscribers(cfg.max_subs)
+        .create()
+    {
         Ok(s) => s,
         Err(e) => {
-            out.mismatch = Some(("service_create_failed".into(), format!("cfg {:?}: {}", cfg, e)));
+            out.mismatch = Some(("service_create_failed".into(), format!("cfg {:?}: {:?}", cfg, e)));
             return out;
         }
     };
-    let mut w: World<S, K> = World { cfg, pubs: (0..cfg.max_pubs).map(|_| None).collect(), subs: (0..cfg.max_subs).map(|_| None).collect(), held: Vec::new(), next_uid: 1, trace: Vec::new() };
+    let mut w: World<S> = World { cfg, pubs: (0..cfg.max_pubs).map(|_| None).collect(), subs: (0..cfg.max_subs).map(|_| None).collect(), held: Vec::new(), next_uid: 1, trace: Vec::new() };
     macro_rules! fail {
         ($rule:expr, $($a:tt)*) => {{
             let t0 = w.trace.len().saturating_sub(30);
@@ -382,7 +252,9 @@ pub fn run_history_kind<S: Service, K: Kind>(config: &iceoryx2::config::Config, 
                 // create publisher
                 let i = rng.below(cfg.max_pubs as u64) as usize;
                 if w.pubs[i].is_none() {
-                    match K::publisher(&svc, Some(cfg.loans), cfg.fail_on_full) {
+                    let pb = svc.publisher_builder().backpressure_strategy(BackpressureStrategy::DiscardData).max_loaned_samples(cfg.loans);
+                    let pb = if cfg.fail_on_full { pb.set_backpressure_handler(|_| iceoryx2::port::BackpressureAction::DiscardDataAndFail) } else { pb };
+                    match pb.create() {
                         Ok(p) => {
                             let uid = w.next_uid;
                             w.next_uid += 1;
@@ -395,7 +267,7 @@ pub fn run_history_kind<S: Service, K: Kind>(config: &iceoryx2::config::Config, 
                     }
                 } else if w.pubs.iter().all(|p| p.is_some()) {
                     // one beyond the limit
-                    match K::publisher(&svc, None, false) {
+                    match svc.publisher_builder().create() {
                         Err(iceoryx2::port::publisher::PublisherCreateError::ExceedsMaxSupportedPublishers) => ev!("limit_publishers_enforced"),
                         Ok(_) => fail!("limit_not_enforced", "publisher beyond max_publishers={} was created", cfg.max_pubs),
                         Err(e) => fail!("limit_wrong_error", "publisher beyond the limit refused with {:?}", e),
@@ -426,7 +298,7 @@ pub fn run_history_kind<S: Service, K: Kind>(config: &iceoryx2::config::Config, 
                 if w.subs[j].is_none() {
                     let buf = rng.range(1, cfg.buf_max as u64) as usize;
                     let hreq = rng.below((cfg.hist.min(buf) + 1) as u64) as usize;
-                    match K::subscriber(&svc, Some((buf, hreq))) {
+                    match svc.subscriber_builder().buffer_size(buf).history_request(hreq).create() {
                         Ok(s) => {
                             let uid = w.next_uid;
                             w.next_uid += 1;
@@ -441,7 +313,7 @@ pub fn run_history_kind<S: Service, K: Kind>(config: &iceoryx2::config::Config, 
                         Err(e) => fail!("port_create_inside_limit", "subscriber {} of max {} refused: {:?}", w.subs.iter().flatten().count() + 1, cfg.max_subs, e),
                     }
                 } else if w.subs.iter().all(|p| p.is_some()) {
-                    match K::subscriber(&svc, None) {
+                    match svc.subscriber_builder().create() {
                         Err(iceoryx2::port::subscriber::SubscriberCreateError::ExceedsMaxSupportedSubscribers) => ev!("limit_subscribers_enforced"),
                         Ok(_) => fail!("limit_not_enforced", "subscriber beyond max_subscribers={} was created", cfg.max_subs),
                         Err(e) => fail!("limit_wrong_error", "subscriber beyond the limit refused with {:?}", e),
@@ -479,7 +351,7 @@ pub fn run_history_kind<S: Service, K: Kind>(config: &iceoryx2::config::Config, 
                 let outstanding = w.pubs[i].as_ref().unwrap().2.len();
                 if op == 4 && outstanding == cfg.loans {
                     // send_copy needs a loan of its own: must be refused without side effects
-                    let r = K::send_copy(&w.pubs[i].as_ref().unwrap().0, 0);
+                    let r = w.pubs[i].as_ref().unwrap().0.send_copy(payload(0));
                     match r {
                         Err(SendError::LoanError(LoanError::ExceedsMaxLoans)) => {
                             w.trace.push(format!("Send{i}->ExceedsMaxLoans"));
@@ -498,12 +370,12 @@ pub fn run_history_kind<S: Service, K: Kind>(config: &iceoryx2::config::Config, 
                         pm.seq += 1;
                         (pm.uid << 32) | pm.seq
                     };
-                    (id, K::send_copy(&w.pubs[i].as_ref().unwrap().0, id))
+                    (id, w.pubs[i].as_ref().unwrap().0.send_copy(payload(id)))
                 } else {
                     let k = rng.below(outstanding as u64) as usize;
                     let (id, sm) = w.pubs[i].as_mut().unwrap().2.remove(k);
-                    if K::check(K::lp(&sm)) != Some(id) {
-                        fail!("loan_changed", "unsent loan #{:x} changed before send: {:?}", id, K::lp(&sm));
+                    if check_payload(sm.payload()) != Some(id) {
+                        fail!("loan_changed", "unsent loan #{:x} changed before send: {:?}", id, sm.payload());
                     }
                     (id, sm.send())
                 };
@@ -544,15 +416,16 @@ pub fn run_history_kind<S: Service, K: Kind>(config: &iceoryx2::config::Config, 
                     continue;
                 }
                 let outstanding = w.pubs[i].as_ref().unwrap().2.len();
-                let id = {
-                    let pm = &w.pubs[i].as_ref().unwrap().1;
-                    (pm.uid << 32) | (pm.seq + 1)
-                };
-                let r = K::loan(&w.pubs[i].as_ref().unwrap().0, id);
+                let r = w.pubs[i].as_ref().unwrap().0.loan_uninit();
                 if outstanding < cfg.loans {
                     match r {
                         Ok(l) => {
-                            w.pubs[i].as_mut().unwrap().1.seq += 1;
+                            let id = {
+                                let pm = &mut w.pubs[i].as_mut().unwrap().1;
+                                pm.seq += 1;
+                                (pm.uid << 32) | pm.seq
+                            };
+                            let l = l.write_payload(payload(id));
                             w.pubs[i].as_mut().unwrap().2.push((id, l));
                             w.trace.push(format!("Loan{i}(#{:x})", id & 0xffff_ffff));
                             ev!("loan");
@@ -577,8 +450,8 @@ pub fn run_history_kind<S: Service, K: Kind>(config: &iceoryx2::config::Config, 
                     if !loans.is_empty() {
                         let k = rng.below(loans.len() as u64) as usize;
                         let (id, l) = loans.remove(k);
-                        if K::check(K::lp(&l)) != Some(id) {
-                            fail!("loan_changed", "unsent loan #{:x} changed: {:?}", id, K::lp(&l));
+                        if check_payload(l.payload()) != Some(id) {
+                            fail!("loan_changed", "unsent loan #{:x} changed: {:?}", id, l.payload());
                         }
                         drop(l);
                         w.trace.push(format!("DropLoan{i}(#{:x})", id & 0xffff_ffff));
@@ -592,15 +465,15 @@ pub fn run_history_kind<S: Service, K: Kind>(config: &iceoryx2::config::Config, 
                     continue;
                 }
                 w.sub_update(j);
-                let r = K::receive(&w.subs[j].as_ref().unwrap().0);
+                let r = w.subs[j].as_ref().unwrap().0.receive();
                 let sm = &mut w.subs[j].as_mut().unwrap().1;
                 let with_data: Vec<u64> = sm.queues.iter().filter(|(_, q)| !q.is_empty()).map(|(p, _)| *p).collect();
                 let receivable: Vec<u64> = with_data.iter().filter(|p| *sm.borrows.get(p).unwrap_or(&0) < cfg.borrow).cloned().collect();
                 match r {
                     Ok(Some(sample)) => {
-                        let id = match K::check(K::sp(&sample)) {
+                        let id = match check_payload(sample.payload()) {
                             Some(v) => v,
-                            None => fail!("payload_corrupted", "received payload is not byte-identical to any sent one: {:?}", K::sp(&sample)),
+                            None => fail!("payload_corrupted", "received payload is not byte-identical to any sent one: {:?}", sample.payload()),
                         };
                         let puid = id >> 32;
                         w.trace.push(format!("Recv{j}->#{:x}", id & 0xffff_ffff));
@@ -640,8 +513,8 @@ pub fn run_history_kind<S: Service, K: Kind>(config: &iceoryx2::config::Config, 
                 if !w.held.is_empty() {
                     let k = rng.below(w.held.len() as u64) as usize;
                     let h = w.held.remove(k);
-                    if K::check(K::sp(&h.sample)) != Some(h.id) {
-                        fail!(if h.orphan { "sample_outliving_subscriber_changed" } else { "held_sample_changed" }, "held sample #{:x} changed: {:?}", h.id, K::sp(&h.sample));
+                    if check_payload(h.sample.payload()) != Some(h.id) {
+                        fail!(if h.orphan { "sample_outliving_subscriber_changed" } else { "held_sample_changed" }, "held sample #{:x} changed: {:?}", h.id, h.sample.payload());
                     }
                     drop(h.sample);
                     w.trace.push(format!("Release(u{} #{:x})", h.sub_uid, h.id & 0xffff_ffff));
@@ -658,7 +531,7 @@ pub fn run_history_kind<S: Service, K: Kind>(config: &iceoryx2::config::Config, 
             10 => {
                 let i = rng.below(cfg.max_pubs as u64) as usize;
                 if w.pubs[i].is_some() {
-                    if let Err(e) = K::update(&w.pubs[i].as_ref().unwrap().0) {
+                    if let Err(e) = w.pubs[i].as_ref().unwrap().0.update_connections() {
                         fail!("update_connections_failed", "{:?}", e);
                     }
                     w.trace.push(format!("Update{i}"));
@@ -670,7 +543,7 @@ pub fn run_history_kind<S: Service, K: Kind>(config: &iceoryx2::config::Config, 
                 let j = rng.below(cfg.max_subs as u64) as usize;
                 if w.subs[j].is_some() {
                     w.sub_update(j);
-                    let r = K::has_samples(&w.subs[j].as_ref().unwrap().0);
+                    let r = w.subs[j].as_ref().unwrap().0.has_samples();
                     let sm = &w.subs[j].as_ref().unwrap().1;
                     let model = sm.queues.values().any(|q| !q.is_empty());
                     match r {
@@ -688,14 +561,14 @@ pub fn run_history_kind<S: Service, K: Kind>(config: &iceoryx2::config::Config, 
         }
         // canaries: every held sample and every unsent loan is unchanged after every step
         for h in &w.held {
-            if K::check(K::sp(&h.sample)) != Some(h.id) {
-                fail!(if h.orphan { "sample_outliving_subscriber_changed" } else { "held_sample_changed" }, "held sample #{:x} changed after the step: {:?}", h.id, K::sp(&h.sample));
+            if check_payload(h.sample.payload()) != Some(h.id) {
+                fail!(if h.orphan { "sample_outliving_subscriber_changed" } else { "held_sample_changed" }, "held sample #{:x} changed after the step: {:?}", h.id, h.sample.payload());
             }
         }
         for (_, _, loans) in w.pubs.iter().flatten() {
             for (id, l) in loans {
-                if K::check(K::lp(l)) != Some(*id) {
-                    fail!("loan_changed", "unsent loan #{:x} changed after the step: {:?}", id, K::lp(l));
+                if check_payload(l.payload()) != Some(*id) {
+                    fail!("loan_changed", "unsent loan #{:x} changed after the step: {:?}", id, l.payload());
                 }
             }
         }
@@ -713,7 +586,7 @@ pub fn run_history_kind<S: Service, K: Kind>(config: &iceoryx2::config::Config, 
         w.held.retain(|h| h.orphan);
         let live_subs: Vec<usize> = (0..cfg.max_subs).filter(|j| w.subs[*j].is_some()).collect();
         for round in 0..2 {
-            let mut borrowed: Vec<Sample<S, K::T, ()>> = Vec::new();
+            let mut borrowed: Vec<Sample<S, P, ()>> = Vec::new();
             for i in 0..cfg.max_pubs {
                 if w.pubs[i].is_none() {
                     continue;
@@ -722,7 +595,7 @@ pub fn run_history_kind<S: Service, K: Kind>(config: &iceoryx2::config::Config, 
                 for fill in 0..2 {
                     for n in 0..(cfg.buf_max + cfg.hist + 1) {
                         let id = (0xFFFF << 32) | ((round * 1000 + fill * 100 + n) as u64);
-                        match K::send_copy(&w.pubs[i].as_ref().unwrap().0, id) {
+                        match w.pubs[i].as_ref().unwrap().0.send_copy(payload(id)) {
                             Ok(_) => {}
                             Err(SendError::UnableToDeliver) if cfg.fail_on_full => {}
                             Err(e) => fail!("saturation_send_failed", "worst-case fill: send {} failed with {:?}", n, e),
@@ -731,9 +604,9 @@ pub fn run_history_kind<S: Service, K: Kind>(config: &iceoryx2::config::Config, 
                     if fill == 0 {
                         for j in &live_subs {
                             loop {
-                                match K::receive(&w.subs[*j].as_ref().unwrap().0) {
+                                match w.subs[*j].as_ref().unwrap().0.receive() {
                                     Ok(Some(s)) => {
-                                        if K::check(K::sp(&s)).is_none() {
+                                        if check_payload(s.payload()).is_none() {
                                             fail!("payload_corrupted", "saturation probe received a corrupted payload");
                                         }
                                         borrowed.push(s)
@@ -748,18 +621,18 @@ pub fn run_history_kind<S: Service, K: Kind>(config: &iceoryx2::config::Config, 
                 }
                 let mut loans = Vec::new();
                 for n in 0..cfg.loans {
-                    match K::loan(&w.pubs[i].as_ref().unwrap().0, 7) {
-                        Ok(l) => loans.push(l),
+                    match w.pubs[i].as_ref().unwrap().0.loan_uninit() {
+                        Ok(l) => loans.push(l.write_payload(payload(7))),
                         Err(e) => fail!("saturation_loan_failed", "worst case (all buffers full, {} samples borrowed, history full): loan {} of {} failed with {:?}", borrowed.len(), n + 1, cfg.loans, e),
                     }
                 }
-                match K::loan(&w.pubs[i].as_ref().unwrap().0, 7) {
+                match w.pubs[i].as_ref().unwrap().0.loan_uninit() {
                     Err(LoanError::ExceedsMaxLoans) => {}
                     Ok(_) => fail!("limit_not_enforced", "saturation probe: loan beyond the limit succeeded"),
                     Err(e) => fail!("limit_wrong_error", "saturation probe: loan beyond the limit failed with {:?}", e),
                 }
                 for s in &borrowed {
-                    if K::check(K::sp(s)).is_none() {
+                    if check_payload(s.payload()).is_none() {
                         fail!("held_sample_changed", "saturation probe: a borrowed sample changed while the publisher was driven to its limits");
                     }
                 }
@@ -769,7 +642,7 @@ pub fn run_history_kind<S: Service, K: Kind>(config: &iceoryx2::config::Config, 
             drop(borrowed);
         }
         for h in &w.held {
-            if K::check(K::sp(&h.sample)) != Some(h.id) {
+            if check_payload(h.sample.payload()) != Some(h.id) {
                 fail!("sample_outliving_subscriber_changed", "sample #{:x} kept past its subscriber changed during the saturation probe", h.id);
             }
         }
